@@ -3,7 +3,7 @@
 From Coq Require String.
 Import (notations) String.
 From Coq Require Import Permutation.
-From Tabula Require Import model.C02_Walks proofs.C02_Walks.
+From Tabula Require Import model.C02_Walks model.C02_Deep proofs.C02_Walks proofs.C02_Deep.
 
 
 
@@ -23,23 +23,36 @@ Theorem C02_pages_found_are_bounded_by_the_kids_entries_read : forall (st : psto
 Proof. exact pages_found_are_bounded_by_the_kids_entries_read. Qed.
 Print Assumptions C02_pages_found_are_bounded_by_the_kids_entries_read.
 
-Theorem C02_accepted_field_widths_are_small_and_not_all_zero : forall w0 w1 w2 : Z, widths_ok w0 w1 w2 = true -> 0 <= w0 <= 8 /\ 0 <= w1 <= 8 /\ 0 <= w2 <= 8 /\ 1 <= w0 + w1 + w2 <= 24.
+Theorem C02_accepted_field_widths_are_small_and_not_all_zero : forall w0 w1 w2 : Z, widths_ok w0 w1 w2 = true -> (0 <= w0 <= 8)%Z /\ (0 <= w1 <= 8)%Z /\ (0 <= w2 <= 8)%Z /\ (1 <= w0 + w1 + w2 <= 24)%Z.
 Proof. exact accepted_field_widths_are_small_and_not_all_zero. Qed.
 Print Assumptions C02_accepted_field_widths_are_small_and_not_all_zero.
 
-Theorem C02_accepted_subsections_fit_in_the_data : forall (idx : list Z) (left row : Z), 0 < row -> 0 <= left -> index_ok idx left row = true -> 0 <= entries idx /\ entries idx * row <= left.
+Theorem C02_accepted_subsections_fit_in_the_data : forall (idx : list Z) (left row : Z), (0 < row)%Z -> (0 <= left)%Z -> index_ok idx left row = true -> (0 <= entries idx)%Z /\ (entries idx * row <= left)%Z.
 Proof. exact accepted_subsections_fit_in_the_data. Qed.
 Print Assumptions C02_accepted_subsections_fit_in_the_data.
 
-Theorem C02_accepted_object_stream_headers_have_room_for_their_pairs : forall n first decoded : Z, objstm_ok n first decoded = true -> 0 <= n /\ 4 * (n - 1) <= first <= decoded.
+Theorem C02_accepted_object_stream_headers_have_room_for_their_pairs : forall n first decoded : Z, objstm_ok n first decoded = true -> (0 <= n)%Z /\ (4 * (n - 1) <= first <= decoded)%Z.
 Proof. exact accepted_object_stream_headers_have_room_for_their_pairs. Qed.
 Print Assumptions C02_accepted_object_stream_headers_have_room_for_their_pairs.
 
-Theorem C02_accepted_worksheet_grids_are_bounded_by_the_cells_present : forall r c p : Z, 0 <= r -> 0 <= c -> grid_ok r c p = true -> r * (c + 1) <= Z.max 1048576 (256 * p).
+Theorem C02_accepted_worksheet_grids_are_bounded_by_the_cells_present : forall r c p : Z, (0 <= r)%Z -> (0 <= c)%Z -> grid_ok r c p = true -> (r * (c + 1) <= Z.max 1048576 (256 * p))%Z.
 Proof. exact accepted_worksheet_grids_are_bounded_by_the_cells_present. Qed.
 Print Assumptions C02_accepted_worksheet_grids_are_bounded_by_the_cells_present.
 
-Theorem C02_clamped_counts_stay_below_the_limit : forall limit v : Z, clamp limit v <= limit /\ (v <= limit -> clamp limit v = v).
+Theorem C02_clamped_counts_stay_below_the_limit : forall limit v : Z, (clamp limit v <= limit)%Z /\ ((v <= limit)%Z -> clamp limit v = v).
 Proof. exact clamped_counts_stay_below_the_limit. Qed.
 Print Assumptions C02_clamped_counts_stay_below_the_limit.
 
+Theorem C02_resolve_deep_always_ends : forall (st : dstore) (budget : nat) (o : dobj), resolve_deep st budget o <> DOutOfFuel.
+Proof. exact resolve_deep_always_ends. Qed.
+Print Assumptions C02_resolve_deep_always_ends.
+
+Theorem C02_expanded_values_within_budget : forall (st : dstore) (budget : nat) (o r : dobj), resolve_deep st budget o = DOk r -> (dsize r <= budget)%nat.
+Proof. exact expanded_values_within_budget. Qed.
+Print Assumptions C02_expanded_values_within_budget.
+
+Theorem C02_a_result_is_the_expansion_of_the_object : forall (st : dstore) (budget : nat) (o r : dobj), resolve_deep st budget o = DOk r -> expands st o r.
+Proof. exact a_result_is_the_expansion_of_the_object. Qed.
+Print Assumptions C02_a_result_is_the_expansion_of_the_object.
+
+Check deep_examples.
